@@ -17,6 +17,7 @@ LEVEL_TEXT = (
     'interleaved by the scheduler; oracle: every JSON API event, in order, and the final Adj-RIB-In equal what refbgp.decode_update / '
     'PeerTable extract from the same bytes.'
     ' Scripts repeat an UPDATE back to back.'
+    ' AIGP with one or several TLVs, on sessions configured to accept it and on sessions that are not.'
 )
 LEVEL_NOTE = 'trusts: the reference decoder (refbgp) and the JSON-to-canonical mapping in this file; session-destroying faults are off'
 DESIGN_REF = 'DESIGN.md section 5, C02'
